@@ -375,12 +375,17 @@ def mon_inbound(tr):
     pending = []       # fed while no connection is up: handed to the next one
     prebytes = b""     # raw bytes fed while no connection is up
     plans, hs_need = [], 0
+    replies, accepted_op = [], -1
+    owned = set()        # exactly-once identifiers whose message the application took ownership of, cycle not ended by the broker
+    cycle_open = set()   # exactly-once identifiers between the return of the message and the PUBCOMP on the wire
+    clean_cfg = any(o.split()[:1] == ["init"] and o.split()[2] == "1" for o, _ in tr) or any(o.split()[:1] == ["adopt"] and o.split()[1:2] == ["1"] for o, _ in tr)
     for i, (op, lines) in enumerate(tr):
         f = op.split()
         if f and f[0] == "dial":
             plans.append(len(unhex(f[2])) if f[1] == "ok" and len(f) > 2 else ("block" if f[1] == "block" else None))
+            replies.append(unhex(f[2]) if f[1] == "ok" and len(f) > 2 else (b"block" if f[1] == "block" else None))
         if f and f[0] == "brk":
-            pending, inbuf, plans, prebytes = [], b"", [], b""
+            pending, inbuf, plans, prebytes, replies = [], b"", [], b"", []
         if f and f[0] == "feed":
             for a in f[1:]:
                 if a in ("tmo", "err", "eof", "block"):
@@ -403,20 +408,32 @@ def mon_inbound(tr):
                         continue
                     if d["name"] == "publish" and "topic" in d and d["qos"] < 3:
                         (fedq if live else pending).append(d)
+                    elif d["name"] == "pubrel" and live:
+                        fedq.append(d)
         if f and f[0] in ("adopt",):
             owed, fedq, inbuf, live = None, [], b"", False
+            # cycles survive a restart through the markers in the store
+            cycle_open = set(markers)
+            owned = set(markers)
         if f and f[0] == "rs" and owed is not None and i > owed_op:
             took = True        # the application invoked ReadSlices again: the slices of the last message are released
+            if owed[0] == "pubrec" and not any(x in ("noclient",) or x.startswith(("unsupported", "dead after")) for x in lines):
+                owned.add(owed[1])
         for l in lines:
             p = l.split()
             if l.startswith("ev dial fail"):
                 while plans and plans[0] == "block":
                     plans.pop(0)
+                    replies.pop(0)
                 if plans:
                     plans.pop(0)
+                    replies.pop(0)
             if l.startswith("ev dial ok"):
                 while plans and plans[0] == "block":
                     plans.pop(0)
+                    replies.pop(0)
+                rep = replies.pop(0) if replies else bytes([0x20, 2, 0, 0])
+                accepted_op = i if (rep is not None and rep[:4] in (bytes([0x20, 2, 0, 0]), bytes([0x20, 2, 1, 0]))) else -1
                 n = plans.pop(0) if plans else 4
                 hs_need = max(0, 4 - (n if n is not None else 4))
                 take = min(hs_need, len(prebytes))
@@ -430,7 +447,7 @@ def mon_inbound(tr):
                         d = mq.parse(pk)
                     except Exception:
                         continue
-                    if d["name"] == "publish" and "topic" in d and d["qos"] < 3:
+                    if (d["name"] == "publish" and "topic" in d and d["qos"] < 3) or d["name"] == "pubrel":
                         fedq.append(d)
             elif l.startswith("ev close "):
                 live, fedq = False, []
@@ -438,20 +455,33 @@ def mon_inbound(tr):
                 live, fedq = False, []      # every other reader error takes the client offline
             if l.startswith("rs msg ") or l.startswith("rs big "):
                 topic = unhex(p[2])
-                cands = [d for d in fedq
-                         if d["topic"] == topic and (len(d["payload"]) == int(p[3]) if l.startswith("rs big") else d["payload"] == unhex(p[3]))]
+                same = lambda d: d["name"] == "publish" and d["topic"] == topic and \
+                    (len(d["payload"]) == int(p[3]) if l.startswith("rs big") else d["payload"] == unhex(p[3]))
+                cands = [d for d in fedq if same(d)]
                 # several fed packets may look alike: prefer the reading under which the client is right
-                benign = [d for d in cands if not (d["qos"] == 2 and d["id"] in markers)]
+                benign = [d for d in cands if not (d["qos"] == 2 and (d["id"] in markers or d["id"] in owned))]
                 match = benign[0] if benign else (cands[0] if cands else None)
                 if match is not None:
-                    fedq = fedq[fedq.index(match) + 1:]
+                    k = fedq.index(match)
+                    # what the broker sent before it on this connection and was not returned: legitimate only for a retransmission
+                    # inside an exactly-once cycle (open now, or ended by a PUBREL further down the stream)
+                    for j, d in enumerate(fedq[:k]):
+                        if d["name"] == "pubrel":
+                            cycle_open.discard(d["id"])
+                            owned.discard(d["id"])
+                        elif not (d["qos"] == 2 and (d["id"] in cycle_open or d["id"] in markers
+                                                      or any(e["name"] == "pubrel" and e["id"] == d["id"] for e in fedq[j + 1:k]))):
+                            out.append(("inbound:lost", "PUBLISH (QoS %d, identifier %04x, topic %s) sent before a returned message on the same connection was never returned"
+                                        % (d["qos"], d.get("id") or 0, d["topic"].hex())))
+                    fedq = fedq[k + 1:]
                     took = False
                     if match["qos"] == 1:
                         owed, owed_op = ("puback", match["id"]), i
                     elif match["qos"] == 2:
                         owed, owed_op = ("pubrec", match["id"]), i
-                        if match["id"] in markers:
+                        if match["id"] in markers or match["id"] in owned:
                             out.append(("inbound:second-delivery", "exactly-once message %04x returned again within one delivery cycle" % match["id"]))
+                        cycle_open.add(match["id"])
                     else:
                         owed = None
                 else:
@@ -468,6 +498,9 @@ def mon_inbound(tr):
                     markers.discard(k - 0x10000)
             elif l.startswith("ev w "):
                 for d in w.add(i, p[2], unhex(p[3])):
+                    if d["name"] == "pubcomp":
+                        cycle_open.discard(d["id"])
+                        owned.discard(d["id"])
                     if d["name"] in ("puback", "pubrec"):
                         name, pid = d["name"], d["id"]
                         if owed == ("?", None):
@@ -493,8 +526,9 @@ def mon_inbound(tr):
         # "none is returned without eventually being acknowledged": due once the application read again and that call went on
         # to wait for the broker (or returned the next message) on a connection
         if f and f[0] == "rs" and owed is not None and owed[1] is not None and i > owed_op and took and lines \
-                and lines[-1].split()[:2] in (["rs", "parked"],) and live and hs_need == 0 \
-                and not any(x.startswith(("ev savefail", "unsupported", "stalled", "hang", "ev close")) for x in lines):
+                and (lines[-1].split()[:2] in (["rs", "parked"],) and live and hs_need == 0
+                     or accepted_op == i and lines[-1] in ("rs err eof", "rs err ueof") and not any(x.startswith("rs err reset") for x in lines)) \
+                and not any(x.startswith(("ev savefail", "unsupported", "stalled", "hang") + (() if accepted_op == i else ("ev close",))) for x in lines):
             out.append(("inbound:never-acknowledged", "the message returned at op %d owes %s %04x; the application read again (op %d) and waits for the broker, no acknowledgement was written"
                         % (owed_op, owed[0], owed[1], i)))
             owed = None
